@@ -189,7 +189,7 @@ OPEN_DOT_ND = 'KF-dot-nd-reverse'
 
 CHEAP_TAIL = ['un', 'bin', 'binc', 'neg', 'get']
 
-SINGLE = ['un', 'special', 'unp', 'bin', 'binc', 'pow', 'neg', 'get', 'T', 'reshape', 'buf', 'set', 'rmw', 'sum', 'prod', 'trace',
+SINGLE = ['un', 'kink', 'special', 'unp', 'bin', 'bcast', 'binc', 'pow', 'neg', 'get', 'T', 'reshape', 'buf', 'set', 'rmw', 'sum', 'prod', 'trace',
           'dot', 'dotc', 'outer', 'inv', 'solve', 'det', 'logdet', 'qr', 'chol', 'eigh', 'svd', 'lu', 'fft', 'tile', 'diag',
           'symvec']
 
